@@ -48,7 +48,7 @@ def main():
                '--workers', str(b.get('workers', 16 if b['flavour'] != 'asan' else 12)), '--tier', '0' if tier == 'quick' else '1',
                '--out', out, '--known', known_arg, '--flavour', b['flavour'], '--replay-dir', os.path.join(ROOT, 'replays'),
                '--timeout', str(b.get('timeout', 60 if b['flavour'] == 'asan' else 30)),
-               '--wall-cap', str(b.get('wall_cap_quick', 240) if tier == 'quick' else b.get('wall_cap_thorough', 3000))]
+               '--wall-cap', os.environ.get('VERIF_WALL_CAP') or str(b.get('wall_cap_quick', 240) if tier == 'quick' else b.get('wall_cap_thorough', 3000))]
         if 'S' in b: cmd += ['--S', str(b['S'] if tier == 'quick' else b.get('S_thorough', b['S']))]
         r = subprocess.run(cmd, capture_output=True, text=True)
         if r.returncode not in (0, 2) or not os.path.exists(out):
